@@ -195,11 +195,12 @@ Proof.
 Qed.
 
 (* ================================================================ create_oms_bitmap *)
-(* bands as slot pairs: each non-empty, strictly after the previous one, the last one not beyond nmax *)
+(* bands as slot pairs: each non-empty, not before the end of the previous one (facing edges may share a slot), the
+   last one not beyond nmax *)
 Fixpoint sep (prev : Z) (nb : list (Z * Z)) (nmax : Z) : Prop :=
   match nb with
   | [] => prev <= nmax
-  | (lo, hi) :: t => prev < lo /\ lo <= hi /\ sep hi t nmax
+  | (lo, hi) :: t => prev <= lo /\ lo <= hi /\ sep hi t nmax
   end.
 
 Lemma oms_tail_length nmax nb : forall prev, sep prev nb nmax ->
@@ -207,26 +208,32 @@ Lemma oms_tail_length nmax nb : forall prev, sep prev nb nmax ->
 Proof.
   induction nb as [|[lo hi] t IH]; intros prev H; cbn [oms_tail sep] in *.
   - rewrite rep_length. lia.
-  - destruct H as (H1 & H2 & H3). rewrite !app_length, !Nat2Z.inj_add, !rep_length, (IH hi H3). lia.
+  - destruct H as (H1 & H2 & H3). cbv zeta.
+    replace (Z.max hi (Z.max lo (prev + 1) - 1)) with hi by lia.
+    rewrite !app_length, !Nat2Z.inj_add, !rep_length, (IH hi H3). lia.
 Qed.
 
 Lemma in_slots_cons lo hi t n : in_slots ((lo, hi) :: t) n = ((lo <=? n) && (n <=? hi)) || in_slots t n.
 Proof. reflexivity. Qed.
 
-Lemma sep_not_in nmax nb : forall prev n, sep prev nb nmax -> n <= prev -> in_slots nb n = false.
+Lemma sep_not_in nmax nb : forall prev n, sep prev nb nmax -> n < prev -> in_slots nb n = false.
 Proof.
   induction nb as [|[lo hi] t IH]; intros prev n H Hn; [reflexivity|].
   cbn [sep] in H. destruct H as (H1 & H2 & H3). rewrite in_slots_cons.
   rewrite (IH hi n H3) by lia. lia.
 Qed.
 
+(* one cell per slot after prev: FREE iff the slot lies in the slot range of some band - a slot shared by the facing
+   edges of two bands is one FREE cell *)
 Lemma oms_tail_znth nmax nb : forall prev n, sep prev nb nmax -> prev < n <= nmax ->
   znth (oms_tail nmax prev nb) (n - prev - 1) = Some (if in_slots nb n then SF else SU).
 Proof.
   induction nb as [|[lo hi] t IH]; intros prev n H Hn; cbn [oms_tail sep] in *.
   - cbn. apply znth_rep. lia.
-  - destruct H as (H1 & H2 & H3). rewrite in_slots_cons.
-    destruct (Z_lt_le_dec n lo) as [Ha|Ha].
+  - destruct H as (H1 & H2 & H3). rewrite in_slots_cons. cbv zeta.
+    replace (Z.max hi (Z.max lo (prev + 1) - 1)) with hi by lia.
+    set (lo' := Z.max lo (prev + 1)).
+    destruct (Z_lt_le_dec n lo') as [Ha|Ha].
     + rewrite znth_app_l by (rewrite rep_length; lia).
       rewrite znth_rep by lia.
       replace ((lo <=? n) && (n <=? hi)) with false by lia.
@@ -240,82 +247,72 @@ Proof.
         rewrite <- (IH hi n H3) by lia. f_equal. lia.
 Qed.
 
-Lemma oms_cells_tail nmin nmax b t : oms_cells nmin nmax (b :: t) = Ok (oms_tail nmax (nmin - 1) (b :: t)).
-Proof. destruct b as [lo hi]. cbn [oms_cells oms_tail]. do 3 f_equal. lia. Qed.
+Lemma oms_cells_tail nmin nmax lo hi t :
+  nmin <= lo -> lo <= hi -> oms_cells nmin nmax ((lo, hi) :: t) = Ok (oms_tail nmax (nmin - 1) ((lo, hi) :: t)).
+Proof.
+  intros H1 H2. cbn [oms_cells oms_tail]. cbv zeta.
+  replace (Z.max lo (nmin - 1 + 1)) with lo by lia. replace (Z.max hi (lo - 1)) with hi by lia.
+  do 3 f_equal. lia.
+Qed.
 
 Lemma oms_cells_spec nmin nmax nb :
-  nb <> [] -> sep (nmin - 1) nb nmax ->
+  nb <> [] -> sep (nmin - 1) nb nmax -> (forall lo hi t, nb = (lo, hi) :: t -> nmin <= lo) ->
   exists c, oms_cells nmin nmax nb = Ok c /\ Z.of_nat (length c) = nmax - nmin + 1 /\
             forall n, nmin <= n <= nmax -> znth c (n - nmin) = Some (if in_slots nb n then SF else SU).
 Proof.
-  intros Hne Hs. destruct nb as [|b t]; [congruence|].
-  eexists. split; [apply oms_cells_tail|]. split.
+  intros Hne Hs Hfirst. destruct nb as [|[lo hi] t]; [congruence|].
+  pose proof (Hfirst lo hi t eq_refl) as Hlo. pose proof Hs as (_ & Hlh & _).
+  eexists. split; [apply oms_cells_tail; assumption|]. split.
   - rewrite (oms_tail_length _ _ _ Hs). lia.
-  - intros n Hn. rewrite <- (oms_tail_znth nmax (b :: t) (nmin - 1) n Hs) by lia. f_equal. lia.
+  - intros n Hn. rewrite <- (oms_tail_znth nmax ((lo, hi) :: t) (nmin - 1) n Hs) by lia. f_equal. lia.
 Qed.
 
-(* bands in frequency: sorted, pairwise disjoint, inside [f_min, f_max] *)
+(* bands in frequency: sorted, not overlapping (consecutive bands may touch), inside [f_min, f_max] *)
 Fixpoint sorted_from (prev : Q) (common : list band) (f_max : Q) : Prop :=
   match common with
   | [] => (prev <= f_max)%Q
-  | (lo, hi) :: t => (prev < lo)%Q /\ (lo <= hi)%Q /\ sorted_from hi t f_max
+  | (lo, hi) :: t => (prev <= lo)%Q /\ (lo <= hi)%Q /\ sorted_from hi t f_max
   end.
 Definition sorted_in (f_min f_max : Q) (common : list band) : Prop :=
   match common with
   | [] => False
   | (lo, hi) :: t => (f_min <= lo)%Q /\ (lo <= hi)%Q /\ sorted_from hi t f_max
   end.
-(* facing edges of consecutive bands do not fall into the same slot *)
-Fixpoint slot_apart (grid : Q) (common : list band) : Prop :=
-  match common with
-  | b1 :: ((b2 :: _) as t) => frequency_to_n (snd b1) grid < frequency_to_n (fst b2) grid /\ slot_apart grid t
-  | _ => True
-  end.
 Definition on_grid (grid f : Q) : Prop := exists k, (f == nvalue_to_frequency k grid)%Q.
 
-Lemma sep_of_sorted grid f_max t : (0 < grid)%Q -> forall b,
-  sorted_from (snd b) t f_max -> slot_apart grid (b :: t) ->
-  sep (frequency_to_n (snd b) grid) (map (band_slots grid) t) (frequency_to_n f_max grid).
+Lemma sep_of_sorted grid f_max t : (0 < grid)%Q -> forall prev,
+  sorted_from prev t f_max ->
+  sep (frequency_to_n prev grid) (map (band_slots grid) t) (frequency_to_n f_max grid).
 Proof.
-  intros Hg. induction t as [|[lo hi] t IH]; intros b Hs Ha; cbn [map sep sorted_from slot_apart] in *.
+  intros Hg. induction t as [|[lo hi] t IH]; intros prev Hs; cbn [map sep sorted_from] in *.
   - apply frequency_to_n_le; assumption.
-  - destruct Hs as (H1 & H2 & H3). destruct Ha as (Ha1 & Ha2). unfold band_slots at 1. cbn [fst snd] in *.
-    split; [exact Ha1|]. split; [apply frequency_to_n_le; assumption|].
-    apply (IH (lo, hi)); assumption.
+  - destruct Hs as (H1 & H2 & H3). unfold band_slots at 1. cbn [fst snd].
+    split; [apply frequency_to_n_le; assumption|]. split; [apply frequency_to_n_le; assumption|].
+    apply IH. exact H3.
 Qed.
 
+(* for ALL sorted non-overlapping common bands inside [f_min, f_max] (since 5d131b9c no slot-level separation is
+   needed): one cell per slot of n_min..n_max; cell n is FREE iff n lies in the slot range of some band, so a slot
+   shared by the facing edges of two bands is FREE once *)
 Theorem bitmap_len grid f_min f_max common :
-  (0 < grid)%Q -> sorted_in f_min f_max common -> slot_apart grid common ->
+  (0 < grid)%Q -> sorted_in f_min f_max common ->
   exists c, create_oms_bitmap common f_min f_max grid = Ok c /\
             Z.of_nat (length c) = frequency_to_n f_max grid - frequency_to_n f_min grid + 1 /\
             forall n, frequency_to_n f_min grid <= n <= frequency_to_n f_max grid ->
                       znth c (n - frequency_to_n f_min grid) =
                       Some (if in_slots (map (band_slots grid) common) n then SF else SU).
 Proof.
-  intros Hg Hs Ha. unfold create_oms_bitmap.
+  intros Hg Hs. unfold create_oms_bitmap.
   assert (Hg0 : Qeq_bool grid 0 = false).
   { destruct (Qeq_bool grid 0) eqn:E; [|reflexivity]. apply Qeq_bool_eq in E. rewrite E in Hg. discriminate. }
   rewrite Hg0. destruct common as [|[lo hi] t]; [contradiction|].
-  apply oms_cells_spec; [discriminate|].
   cbn [sorted_in] in Hs. destruct Hs as (H1 & H2 & H3).
-  cbn [map sep]. unfold band_slots at 1. cbn [fst snd].
-  split; [|split].
-  - assert (frequency_to_n f_min grid <= frequency_to_n lo grid) by (apply frequency_to_n_le; assumption). lia.
-  - apply frequency_to_n_le; assumption.
-  - apply (sep_of_sorted grid f_max t Hg (lo, hi)); assumption.
-Qed.
-
-(* without the slot-level separation the length clause is false: two bands 2 GHz apart inside one slot *)
-Theorem bitmap_len_touching_refuted :
-  exists grid f_min f_max common c,
-    (0 < grid)%Q /\ sorted_in f_min f_max common /\ create_oms_bitmap common f_min f_max grid = Ok c /\
-    Z.of_nat (length c) <> frequency_to_n f_max grid - frequency_to_n f_min grid + 1.
-Proof.
-  exists default_grid, f_ref, (193412500000000 # 1),
-         [((193162500000000 # 1), (193226000000000 # 1)); ((193228000000000 # 1), (193350000000000 # 1))].
-  eexists. split; [reflexivity|]. split.
-  - cbn. repeat split; discriminate.
-  - split; [vm_compute; reflexivity|]. vm_compute. discriminate.
+  assert (Hlo : frequency_to_n f_min grid <= frequency_to_n lo grid) by (apply frequency_to_n_le; assumption).
+  apply oms_cells_spec; [discriminate| |].
+  - cbn [map sep]. unfold band_slots at 1. cbn [fst snd].
+    split; [lia|]. split; [apply frequency_to_n_le; assumption|].
+    apply (sep_of_sorted grid f_max t Hg hi). exact H3.
+  - intros lo' hi' t' E. cbn [map] in E. unfold band_slots at 1 in E. cbn [fst snd] in E. injection E as <- _ _. exact Hlo.
 Qed.
 
 (* grid-aligned band edges *)
@@ -334,23 +331,6 @@ Proof.
     try (apply (nvalue_to_frequency_le_inv _ _ grid Hg); assumption).
 Qed.
 
-Lemma slot_apart_on_grid grid f_max t : (0 < grid)%Q -> forall b,
-  Forall (fun b => on_grid grid (fst b) /\ on_grid grid (snd b)) (b :: t) ->
-  sorted_from (snd b) t f_max -> slot_apart grid (b :: t).
-Proof.
-  intros Hg. assert (Hg0 : ~ (grid == 0)%Q) by (intros E; rewrite E in Hg; discriminate).
-  induction t as [|[lo hi] t IH]; intros b Hall Hs; [exact I|].
-  cbn [sorted_from] in Hs. destruct Hs as (H1 & H2 & H3).
-  inversion Hall as [|? ? [_ (k2 & Hk2)] Hall']; subst.
-  inversion Hall' as [|? ? [(k1 & Hk1) _] _]; subst. cbn [fst snd] in *.
-  split; [|apply IH; assumption].
-  cbn [fst snd].
-  rewrite (frequency_to_n_on_grid (snd b) k2 grid Hg0 Hk2), (frequency_to_n_on_grid lo k1 grid Hg0 Hk1).
-  destruct (Z_lt_le_dec k2 k1) as [Hlt|Hge]; [exact Hlt|exfalso].
-  apply (nvalue_to_frequency_le k1 k2 grid Hg) in Hge. rewrite <- Hk1, <- Hk2 in Hge.
-  apply (Qlt_irrefl lo). apply Qle_lt_trans with (snd b); assumption.
-Qed.
-
 Theorem bitmap_marks grid f_min f_max common :
   (0 < grid)%Q -> sorted_in f_min f_max common ->
   Forall (fun b => on_grid grid (fst b) /\ on_grid grid (snd b)) common ->
@@ -360,10 +340,7 @@ Theorem bitmap_marks grid f_min f_max common :
                       znth c (n - frequency_to_n f_min grid) = Some (if in_bands grid common n then SF else SU).
 Proof.
   intros Hg Hs Hall.
-  assert (Ha : slot_apart grid common).
-  { destruct common as [|[lo hi] t]; [exact I|]. cbn [sorted_in] in Hs. destruct Hs as (_ & _ & H3).
-    apply (slot_apart_on_grid grid f_max t Hg (lo, hi)); assumption. }
-  destruct (bitmap_len grid f_min f_max common Hg Hs Ha) as (c & Hc & Hl & Hn).
+  destruct (bitmap_len grid f_min f_max common Hg Hs) as (c & Hc & Hl & Hn).
   exists c. split; [exact Hc|]. split; [exact Hl|].
   intros n Hr. rewrite (Hn n Hr). rewrite (in_bands_slots grid common n Hg Hall). reflexivity.
 Qed.
@@ -1083,14 +1060,14 @@ Definition map_ok (g : graph) (si : band) (fmin fmax : Q) (l : line) (b : bitmap
                         then SF else SU).
 
 Definition common_ok (g : graph) (si : band) (fmin fmax : Q) (els : list Z) : Prop :=
-  sorted_in fmin fmax (elements_common_range g els si) /\ slot_apart default_grid (elements_common_range g els si).
+  sorted_in fmin fmax (elements_common_range g els si).
 
 Lemma oms_bitmap_ok g si fmin fmax l :
   common_ok g si fmin fmax (line_path l) ->
   exists b, oms_bitmap g si fmin fmax (line_path l) = Ok b /\ map_ok g si fmin fmax l b.
 Proof.
-  intros (Hs & Ha). unfold oms_bitmap.
-  destruct (bitmap_len default_grid fmin fmax _ ltac:(reflexivity) Hs Ha) as (c & Hc & Hl & Hn).
+  intros Hs. unfold oms_bitmap.
+  destruct (bitmap_len default_grid fmin fmax _ ltac:(reflexivity) Hs) as (c & Hc & Hl & Hn).
   rewrite Hc. cbn [bind]. unfold mk_bitmap. change (Qeq_bool default_grid 0) with false.
   assert (Hlen : Nat.eqb (length c)
                    (length (zrange (frequency_to_n fmin default_grid) (frequency_to_n fmax default_grid + 1))) = true).
@@ -1168,7 +1145,7 @@ Proof.
   induction common as [|[lo hi] t IH]; intros prev H; cbn [sorted_from_b sorted_from] in *.
   - apply Qle_bool_iff. exact H.
   - apply andb_true_iff in H. destruct H as (H & H3). apply andb_true_iff in H. destruct H as (H1 & H2).
-    split; [apply Qltb_lt; exact H1|]. split; [apply Qle_bool_iff; exact H2|auto].
+    split; [apply Qle_bool_iff; exact H1|]. split; [apply Qle_bool_iff; exact H2|auto].
 Qed.
 
 Lemma sorted_in_b_sound f_min f_max common : sorted_in_b f_min f_max common = true -> sorted_in f_min f_max common.
@@ -1176,16 +1153,6 @@ Proof.
   destruct common as [|[lo hi] t]; cbn [sorted_in_b sorted_in]; [discriminate|]. intros H.
   apply andb_true_iff in H. destruct H as (H & H3). apply andb_true_iff in H. destruct H as (H1 & H2).
   split; [apply Qle_bool_iff; exact H1|]. split; [apply Qle_bool_iff; exact H2|apply sorted_from_b_sound; exact H3].
-Qed.
-
-Lemma slot_apart_b_sound grid common : slot_apart_b grid common = true -> slot_apart grid common.
-Proof.
-  induction common as [|b1 t IH]; [intros; exact I|]. destruct t as [|b2 t']; [intros; exact I|].
-  intros H. change (slot_apart_b grid (b1 :: b2 :: t')) with
-    ((frequency_to_n (snd b1) grid <? frequency_to_n (fst b2) grid) && slot_apart_b grid (b2 :: t')) in H.
-  apply andb_true_iff in H. destruct H as (H1 & H2).
-  change (frequency_to_n (snd b1) grid < frequency_to_n (fst b2) grid /\ slot_apart grid (b2 :: t')).
-  split; [lia|apply IH; exact H2].
 Qed.
 
 Theorem net_hyps_b_sound g si d :
@@ -1199,8 +1166,7 @@ Proof.
   split; [apply chain_wf_b_sound; exact H1|]. split.
   - intros ->. discriminate.
   - split; [reflexivity|]. apply Forall_forall. intros l Hl. rewrite forallb_forall in H3. specialize (H3 l Hl).
-    unfold common_ok_b in H3. apply andb_true_iff in H3. destruct H3 as (A & B).
-    split; [apply sorted_in_b_sound; exact A|apply slot_apart_b_sound; exact B].
+    unfold common_ok_b in H3. apply sorted_in_b_sound. exact H3.
 Qed.
 
 (* ================================================================ find_common_range, pointwise *)
